@@ -142,8 +142,8 @@ options_get_info(options_t     *options,     /* global options */
             *info      = obj->comp.info;
             *szip_mode = obj->comp.szip_mode;
 
-            /* chunk and compress */
-            if (*chunk_flags == HDF_CHUNK && *comp_type > 0) {
+            /* chunk and compress; the object may also still be chunked as it was in the input */
+            if ((*chunk_flags == HDF_CHUNK || *chunk_flags == (HDF_CHUNK | HDF_COMP)) && *comp_type > 0) {
                 /* assign the object CHUNK information   */
                 *chunk_flags              = HDF_CHUNK | HDF_COMP;
                 chunk_def->comp.comp_type = obj->comp.type;
@@ -174,9 +174,11 @@ options_get_info(options_t     *options,     /* global options */
                         printf("Error: Unrecognized compression code in %d <%s>\n", obj->comp.type, path);
                         break;
                 }; /*switch */
-                for (i = 0; i < rank; i++) {
-                    /* To use chunking with RLE, Skipping Huffman, and GZIP compression */
-                    chunk_def->comp.chunk_lengths[i] = options->chunk_g.chunk_lengths[i];
+                if (options->chunk_g.rank == rank) {
+                    for (i = 0; i < rank; i++) {
+                        /* To use chunking with RLE, Skipping Huffman, and GZIP compression */
+                        chunk_def->comp.chunk_lengths[i] = options->chunk_g.chunk_lengths[i];
+                    }
                 }
             } /* chunk_flags */
         }     /* obj */
